@@ -75,3 +75,76 @@ func NewRW(ns string, rw io.ReadWriter, state xmpp.SessionState) (*xmpp.Session,
 	}
 	return xmpp.NewSession(context.Background(), Location, Origin, rw, state, ReadyNegotiator(ns, 0))
 }
+
+// Reactive is a scripted peer that is not a goroutine: whenever the library
+// reads and nothing is buffered, Step is asked what the peer says next, given
+// what the library wrote since the previous step. Returning "" (and nil)
+// means the peer closes the connection (io.EOF).
+type Reactive struct {
+	Step    func(step int, written string) (string, error)
+	out     []byte
+	seen    int
+	buf     []byte
+	step    int
+	ReadErr error // sticky error once returned
+	// WriteFail, if >= 0, makes the n-th Write call (0-based) fail.
+	WriteFail int
+	writes    int
+	Events    []string
+}
+
+// NewReactive returns a Reactive with write faults disabled.
+func NewReactive(step func(step int, written string) (string, error)) *Reactive {
+	return &Reactive{Step: step, WriteFail: -1}
+}
+
+func (r *Reactive) Read(p []byte) (int, error) {
+	if len(r.buf) == 0 {
+		if r.ReadErr != nil {
+			return 0, r.ReadErr
+		}
+		w := string(r.out[r.seen:])
+		r.seen = len(r.out)
+		if w != "" {
+			r.Events = append(r.Events, "lib: "+w)
+		}
+		reply, err := r.Step(r.step, w)
+		r.step++
+		if err == nil && reply == "" {
+			err = io.EOF
+		}
+		if reply != "" {
+			r.Events = append(r.Events, "peer: "+reply)
+		}
+		if err != nil {
+			r.Events = append(r.Events, "peer: "+err.Error())
+			r.ReadErr = err
+			if reply == "" {
+				return 0, err
+			}
+		}
+		r.buf = []byte(reply)
+	}
+	n := copy(p, r.buf)
+	r.buf = r.buf[n:]
+	return n, nil
+}
+
+func (r *Reactive) Write(p []byte) (int, error) {
+	if r.WriteFail >= 0 && r.writes == r.WriteFail {
+		r.writes++
+		r.Events = append(r.Events, "write fault")
+		return 0, fmt.Errorf("sess: injected write error")
+	}
+	r.writes++
+	r.out = append(r.out, p...)
+	return len(p), nil
+}
+
+// Written returns everything the library wrote.
+func (r *Reactive) Written() string { return string(r.out) }
+
+// Unseen returns what was written after the last Step.
+func (r *Reactive) Unseen() string {
+	return string(r.out[r.seen:])
+}
